@@ -225,7 +225,25 @@ def check_surface(case, ctx):
     # a container of two distinct surfaces with equal data (a patch and its copy): both are transposed
     from geomdl import multi as _multi
     twins = _multi.SurfaceContainer(copy.deepcopy(s1), copy.deepcopy(s1))
+    shared_trim = None
+    if rng.random() < 0.5:
+        # ... that share ONE trim curve object: it is transposed once (not once per surface it belongs to)
+        from geomdl import BSpline as _BS, knotvector as _KV2
+        (ua_, ub_), (va_, vb_) = G.domains_of(s1)
+        shared_trim = _BS.Curve()
+        shared_trim.degree = 1
+        tl_ = [[ua_ + x_ * (ub_ - ua_), va_ + y_ * (vb_ - va_)] for x_, y_ in ((0.2, 0.3), (0.7, 0.3), (0.7, 0.6), (0.2, 0.6), (0.2, 0.3))]
+        shared_trim.ctrlpts = [list(p_) for p_ in tl_]
+        shared_trim.knotvector = _KV2.generate(1, 5)
+        for e_ in twins:
+            e_.add_trim(shared_trim)
+        ctx.tag('transpose:container-shared-trim')
     tt_ = operations.transpose(twins, inplace=rng.random() < 0.5)
+    if shared_trim is not None:
+        got_ = [sorted([round(c_, 9) for c_ in p_] for p_ in e_.trims[0].ctrlpts) for e_ in tt_]
+        exp_ = sorted([round(p_[1], 9), round(p_[0], 9)] for p_ in tl_)
+        ctx.check(all(g_ == exp_ for g_ in got_), 'transpose/shared-trim-transposed-twice', 'transpose of a container whose two surfaces share one trim '
+                  'curve: the trim of the result is %r, the (v, u)-swapped loop is %r' % (got_[0], exp_), what='transpose')
     ctx.tag('transpose:container-of-equal-twins')
     St = reference((q, p), (V, U), (nv, nu), P, W, rational, perm=lambda t_: (t_[1], t_[0]))
     for k_, e_ in enumerate(tt_):
